@@ -93,7 +93,8 @@ Definition c15_check (c : c15_case) : bool := c15_run (c_engine c) mstate0 (c_sc
        revision in dump;
    (b) the first request on a key that is live in dump, if it is an Update/Delete guarded with the
        key's true revision (the index record in dump), succeeds;
-   (c) a List(0) before its first request returns the newest version of every live key of dump;
+   (c) every List(0) it serves returns, for the keys it has not written to since the election, exactly the
+       newest version of every live key of dump (before its first request: for all keys);
    (d) every List(0) it serves reads at a revision that has caught up with everything it has handed
        out (the node is not wedged).
    Violations are classified: 1 = finding C15-F1 (engine = Badger and the timestamp the leader
@@ -119,8 +120,9 @@ Definition guarded_true (d : dstore) (o : hop) : bool :=
       (0 <? prev) && match k_idx (dget d k) with Some (r, false) => r =? prev | _ => false end
   | _ => false
   end.
-Definition act_cid (a : act) : cid :=
-  match a with AElect c _ _ _ _ _ _ | AOp c _ | AList c | AGet c _ | ASync c _ => c | ARestart => 0 end.
+(* the entries of a List result whose key the leader has not written to since the election *)
+Definition restrict (touched : list bytes) (kvs : list (bytes * bytes * N)) : list (bytes * bytes * N) :=
+  filter (fun kv => negb (existsb (beqb (fst (fst kv))) touched)) kvs.
 
 Definition o15_step (s : ost15) (x : act * aobs) : option ost15 :=
   match x with
@@ -147,7 +149,8 @@ Definition o15_step (s : ost15) (x : act * aobs) : option ost15 :=
   | (AList c, OList hdr kvs) =>
       match os_leader s with
       | Some l => if c =? l
-                  then if (os_last s <=? hdr) && (if os_fresh s then list_eqb kv_eqb kvs (list_latest (os_dump s)) else true)
+                  then if (os_last s <=? hdr)
+                          && list_eqb kv_eqb (restrict (os_touched s) kvs) (restrict (os_touched s) (list_latest (os_dump s)))
                        then Some s else None
                   else Some s
       | None => Some s
@@ -174,3 +177,70 @@ Fixpoint o15_run (e : engine) (s : ost15) (xs : list (act * aobs)) : option N :=
   end.
 
 Definition c15_oracle (c : c15_case) : option N := o15_run (c_engine c) ost0 (c_script c).
+
+(* ---------- validity, decidable: evaluated on every case by the shard ----------
+   A process is elected at most once and only synced as a follower before that (el = elected so far),
+   only the current leader serves requests, and on the environment clocks (memkv, TiKV) the reading
+   installed at a hand-over is at or above every stored revision and every revision the node had
+   synced to — the rate hypothesis, checked on the observed clock readings instead of assumed. *)
+Definition cid_in (c : cid) (el : list cid) : bool := existsb (N.eqb c) el.
+Definition ldr_is (ldr : option cid) (c : cid) : bool := match ldr with Some l => l =? c | None => false end.
+
+Fixpoint v15b (e : engine) (s : mstate) (ldr : option cid) (el : list cid) (xs : list (act * aobs)) : bool :=
+  match xs with
+  | [] => true
+  | (a, _) :: tl =>
+      let s' := fst (m_step e s a) in
+      match a with
+      | AElect c _ _ _ _ _ _ =>
+          negb (cid_in c el) &&
+          match snd (m_step e s a) with
+          | OElect (EAcquired v) _ _ d _ =>
+              (engine_eqb e EBadger || ((dmax d <=? v) && (deal (p_lead (m_p s c)) <=? v))) && v15b e s' (Some c) (c :: el) tl
+          | _ => v15b e s' ldr el tl
+          end
+      | ASync c _ => negb (cid_in c el) && v15b e s' ldr el tl
+      | AOp c _ | AList c => ldr_is ldr c && v15b e s' ldr el tl
+      | AGet _ _ | ARestart => v15b e s' ldr el tl
+      end
+  end.
+Definition c15_validb (c : c15_case) : bool := v15b (c_engine c) mstate0 None [] (c_script c).
+
+(* what the shards evaluate: a case that is not valid counts as a disagreement *)
+Definition c15_checkv (c : c15_case) : bool := c15_validb c && c15_check c.
+
+(* ---------- the real Campaign() runs (child processes of the driver) as cases ----------
+   The real leader.NewLeaderElection(...).Campaign() is run on a store with data; the harness records
+   the node-level events in the order it observed them, as labels of the callback model
+   (Model/Handover.v nstep): NSyncCheck (a follower read passed its IsLeader() check and waits for the
+   old leader), NParse v (the gauge "leader.election.initial.version" reported v), NInstall
+   (SetCurrentRevision), NFlag (IsLeader() turned true), NRequest (a write admitted by IsLeader()),
+   NSyncInstall r (the old leader's late answer r reached installRevision). *)
+Record camp_case := mkCamp {
+  k_version   : N;                  (* the version OnStartedLeading reported and installed *)
+  k_maxrev    : N;                  (* largest stored revision when the election began *)
+  k_labels    : list nlabel;
+  k_handed    : list (option N);    (* per label: the revision a request was answered with *)
+  k_committed : N                   (* Backend.GetCurrentRevision() at the end *)
+}.
+
+Definition on_eqb (a b : option N) : bool := opt_eqb N.eqb a b.
+
+Definition camp_check (k : camp_case) : bool :=
+  let '(x, os) := nrun node0 (k_labels k) in
+  list_eqb on_eqb os (k_handed k)
+  && (committed (n_lead x) =? k_committed k)
+  && match n_pc x with CbLeading v => v =? k_version k | _ => false end
+  && (k_maxrev k <=? k_version k).      (* validity: memkv's clock is ahead of the stored revisions *)
+
+(* the property on the observations alone: every revision handed out is above every stored one, and
+   the node's read revision has not fallen below the version it started from *)
+Definition camp_oracle (k : camp_case) : option N :=
+  ok_if (forallb (fun o => match o with Some r => k_maxrev k <? r | None => true end) (k_handed k)
+         && (k_version k <=? k_committed k)).
+
+Inductive c15_any := KScript (c : c15_case) | KCampaign (k : camp_case).
+Definition c15_any_check (c : c15_any) : bool :=
+  match c with KScript c => c15_checkv c | KCampaign k => camp_check k end.
+Definition c15_any_oracle (c : c15_any) : option N :=
+  match c with KScript c => c15_oracle c | KCampaign k => camp_oracle k end.
